@@ -232,7 +232,7 @@ def twins(v):
             out += [v[:i] + [y] + v[i + 1:] for y in twins(x)]
     elif isinstance(v, dict):
         for k, x in v.items():
-            out += [dict(v, **{k: y}) for y in twins(x)]
+            out += [{**v, k: y} for y in twins(x)]
     return out
 LOOKUP_KEYS = ["k", "p:q:k", "pre:k", "p:qk", "p:q:", "p:q", "pre:", "flag", "pre:flag", "p:q:flag", "p:q:k:x", ":k", "prek"]
 URIS = ["/upd/a", "/upd/b?x=1", "/upd/", "/upd", "/other/a", "/upd/a%20b", "/upd/%41", "/upd/a%00", "/upd/%C3%A9",
@@ -321,6 +321,11 @@ def handler_pool():
         {"path": "/upd", "action": "set_value", "key": "flag", "value": [1], "cal": ["::1", "192.0.2.1"]},
         {"path": "/upd", "action": "set_value", "key": "flag", "value": "", "cal": None},
         {"path": "/upd", "action": "set_value", "key": "flag", "value": _cyclic_values()[1], "cal": None},
+        {"path": "/upd", "action": "set_value", "key": "k", "value": {1: "pxe", 2: "local"}, "cal": None},
+        {"path": "/upd", "action": "set_value", "key": "flag", "value": {True: 1, None: 0}, "cal": None},
+        {"path": "/upd", "action": "set_value", "key": "k", "value": ["x", ("y", 1)], "cal": None},
+        {"path": "/upd", "action": "set_value", "key": "flag", "value": {"a": {"b": (1,)}}, "cal": ["::1", "192.0.2.1"]},
+        {"path": "/upd", "action": "set_value", "key": "k", "value": {"1": "s", 1: "i"}, "cal": None},
         {"path": "/upd", "action": "set_value", "key": "k", "value": _shared_values()[0], "cal": None},
         {"path": "/upd", "action": "set_value", "key": "flag", "value": _shared_values()[3], "cal": None},
         {"path": "/upd", "action": "set_value", "key": "flag", "value": None, "cal": None},
@@ -613,8 +618,13 @@ class C15(Check):
                 quick_busy(s._data_store._connection)
                 sources.append(s)
             for h in c["handlers"]:
-                hd = sqlite_update.get_instance_http(handler_config(h, path))
-                quick_busy(hd._data_store._connection)
+                # through the real factory; a configuration the constructor refuses is an observation, not a harness
+                # error: every request to that handler then reports the constructor's exception
+                try:
+                    hd = sqlite_update.get_instance_http(handler_config(h, path))
+                    quick_busy(hd._data_store._connection)
+                except Exception as e:      # noqa: BLE001
+                    hd = e
                 handlers.append(hd)
             READER.cmd({"open": path})
             # a foreign program: one raw connection that takes/gives up the write lock, one that issues statements
@@ -635,7 +645,7 @@ class C15(Check):
                 except Exception:       # noqa: BLE001
                     pass
             self.locker = self.ext = None
-            for x in stores + sources + handlers:
+            for x in stores + sources + [y for y in handlers if not isinstance(y, Exception)]:
                 try:
                     x.close()
                 except Exception:       # noqa: BLE001
@@ -690,6 +700,8 @@ class C15(Check):
             return [4, [] if r is None else [u8(r)]]
         h = handlers[st[1]]
         req = st[2]
+        if isinstance(h, Exception):
+            raise h
         if req.get("via"):
             return [6, HTTPD.request(h, req["method"], req["uri"], clen_of(req), req["body"])]
         ctx = h.prepare_context(req["uri"])
